@@ -1,7 +1,8 @@
 import StepModel.GenFiles
 import StepModel.GenCxxPassLemmas
-import StepModel.GenCollect
-import StepModel.GenCxxMarks
+import StepModel.GenCxxPassLink
+import StepModel.GenCollectLemmas
+import StepModel.GenCxxMarksLemmas
 import StepModel.GenSelectOrderLemmas
 /-!
 # C17 — the build-time scanner predicts exactly the files the C++ generator writes
@@ -555,6 +556,235 @@ theorem C17_described_schemas_have_code (p : Bool) (f : SchemaFile) :
     rcases h2 with h2 | h2
     · exact Or.inr h2
     · exact Or.inl h2
+
+/-! ## the link between the two models: the pass assignment of the file-set model IS what the multpass model prints -/
+
+/-- a schema of the multpass model stands for a schema of the declaration-level model: same name, and it has an own object
+    (a type or an entity the pass logic looks at) iff the schema declares a type or an entity -/
+def Describes (p : Pass.PSchema) (s : Schema) : Prop := p.name = s.name ∧ (p.own = [] ↔ (s.types = [] ∧ s.entities = []))
+
+/-- … schema by schema, in the same (dictionary) order -/
+inductive AllDescribe : List Pass.PSchema → List Schema → Prop
+  | nil : AllDescribe [] []
+  | cons {p : Pass.PSchema} {s : Schema} {ps : List Pass.PSchema} {ss : List Schema} :
+      Describes p s → AllDescribe ps ss → AllDescribe (p :: ps) (s :: ss)
+
+theorem expectedPrinted_filter_none (ps : List Pass.PSchema) (n : String) (h : ∀ q ∈ ps, q.name ≠ n) :
+    (Pass.expectedPrinted ps).filter (fun x => x.1 == n) = [] := by
+  rw [List.filter_eq_nil_iff]
+  intro x hx
+  unfold Pass.expectedPrinted at hx
+  obtain ⟨q, hq, rfl⟩ := List.mem_map.mp hx
+  simpa using h q (List.mem_filter.mp hq).1
+
+theorem expectedPrinted_of (ps : List Pass.PSchema) (ss : List Schema) (hd : AllDescribe ps ss)
+    (hn : (ss.map (·.name)).Nodup) :
+    ∀ s ∈ ss, ((Pass.expectedPrinted ps).filter (fun x => x.1 == s.name)).map (·.2)
+      = if s.types.isEmpty && s.entities.isEmpty then [] else [0] := by
+  induction hd with
+  | nil => intro s hs; cases hs
+  | @cons p s' ps' ss' hps hrest ih =>
+    have hn' : s'.name ∉ ss'.map (·.name) ∧ (ss'.map (·.name)).Nodup := by
+      have : (s'.name :: ss'.map (·.name)).Nodup := hn
+      exact List.nodup_cons.mp this
+    have hsplit : Pass.expectedPrinted (p :: ps') = (if p.own.isEmpty then [] else [(p.name, 0)]) ++ Pass.expectedPrinted ps' := by
+      unfold Pass.expectedPrinted
+      by_cases he : p.own.isEmpty = true
+      · simp [he]
+      · simp [he]
+    -- the names of the tail are those of ss'
+    have htail : ∀ n, n ∉ ss'.map (·.name) → ∀ q ∈ ps', q.name ≠ n := by
+      intro n hnn
+      clear ih hn hn' hsplit
+      induction hrest with
+      | nil => intro q hq; cases hq
+      | @cons a b l1 l2 hab _ ih2 =>
+        intro q hq
+        have hnn' : n ≠ b.name ∧ n ∉ l2.map (·.name) := by simpa using hnn
+        rcases List.mem_cons.mp hq with e | e
+        · subst e; rw [hab.1]; exact fun e => hnn'.1 e.symm
+        · exact ih2 hnn'.2 q e
+    intro s hs
+    rw [hsplit, List.filter_append, List.map_append]
+    rcases List.mem_cons.mp hs with e | e
+    · subst e
+      rw [expectedPrinted_filter_none ps' s.name (htail s.name hn'.1)]
+      by_cases hemp : p.own.isEmpty = true
+      · have h1 : s.types = [] ∧ s.entities = [] := hps.2.mp (List.isEmpty_iff.mp hemp)
+        simp [hemp, h1.1, h1.2]
+      · have h1 : ¬ (s.types = [] ∧ s.entities = []) := fun h => hemp (List.isEmpty_iff.mpr (hps.2.mpr h))
+        have h2 : (s.types.isEmpty && s.entities.isEmpty) = false := by
+          cases hh : (s.types.isEmpty && s.entities.isEmpty) with
+          | false => rfl
+          | true =>
+            simp only [Bool.and_eq_true, List.isEmpty_iff] at hh
+            exact absurd hh h1
+        simp [hemp, h2, hps.1]
+    · have hne : s'.name ≠ s.name := fun e' => hn'.1 (e' ▸ List.mem_map.mpr ⟨s, e, rfl⟩)
+      have hhead : (if p.own.isEmpty then [] else [(p.name, 0)] : List (String × Nat)).filter (fun x => x.1 == s.name) = [] := by
+        by_cases hemp : p.own.isEmpty = true
+        · simp [hemp]
+        · simp [hemp, hps.1, hne]
+      rw [hhead]
+      simpa using ih hn'.2 s e
+
+/-- **The pass assignment the file-set theorems use is the one the multpass model produces.**  For a file without interface
+    clauses (`Cxx.passes f = some pf`) and any description of it in the multpass model (`Describes`: same schema names, a schema
+    has an own object iff it declares a type or an entity) that is in dependency order with disjoint qualified object names:
+    the suffixes with which `Pass.printFile` (print_schemas_separate → checkTypes / checkEnts → SCHEMAprint, loop shape and last
+    case as found in the tree) calls `SCHEMAprint` for a schema are exactly `pf s` — `[0]` for a schema with a type or an
+    entity, none for a schema without.  This is the premise of `C17_file_as_written`, proved from the pass model instead of
+    read off the hand definition `Cxx.passes`. -/
+theorem C17_passes_agree_with_pass_model (f : SchemaFile) (ps : List Pass.PSchema)
+    (hdesc : AllDescribe ps f.schemas) (hord : Pass.InDependencyOrder [] ps) (hdj : Pass.OwnDisjoint ps)
+    (hnames : (f.schemas.map (·.name)).Nodup) (pf : Schema → List Nat) (hp : Cxx.passes f = some pf) (fuel : Nat) :
+    ∀ s ∈ f.schemas,
+      ((Pass.printFile Generated.CxxPass.sweepLoop Generated.CxxPass.enumLastCase ps (fuel + 1)).printed.filter
+          (fun x => x.1 == s.name)).map (·.2) = pf s := by
+  have hc : Generated.CxxPass.enumLastCase = .inSchemaOrProcessed := by decide
+  have hl : Generated.CxxPass.sweepLoop = .untilSettledOrStalled := by decide
+  rw [hc, hl, Pass.printFile_printed ps hord hdj fuel]
+  have hpf : pf = fun s => if s.types.isEmpty && s.entities.isEmpty then [] else [0] := by
+    unfold Cxx.passes at hp
+    split at hp
+    · exact (Option.some.inj hp).symm
+    · cases hp
+  subst hpf
+  exact expectedPrinted_of ps f.schemas hdesc hnames
+
+/-- the lists of a build description do not depend on the short name (number of schemas in the file, short-name rule) -/
+theorem cmake_lists_indep (path : String) (s : Schema) (n : Nat) (p : Bool) :
+    (Scanner.cmake path s n p).listed = (Scanner.cmake path s).listed ∧
+    (Scanner.cmake path s n p).unityEntityImpl = (Scanner.cmake path s).unityEntityImpl ∧
+    (Scanner.cmake path s n p).unityTypeImpl = (Scanner.cmake path s).unityTypeImpl ∧
+    (Scanner.cmake path s n p).schemaName = s.name := ⟨rfl, rfl, rfl, rfl⟩
+
+/-- a schema without types and entities adds no file when it is not printed -/
+theorem schemaAll_codeless (s : Schema) (ht : s.types = []) (he : s.entities = []) : Cxx.schemaAll s [] = some [] := by
+  simp [Cxx.schemaAll, Cxx.allSome, Cxx.typeFiles, Cxx.entityFiles, ht, he]
+
+theorem created_single (path : String) (s : Schema) (gate : s.name.length ≤ maxIdentLen)
+    (hacc : Cxx.accepts { path := path, schemas := [s] } = true) :
+    Cxx.created { path := path, schemas := [s] } (fun _ => [0]) = some (fixedFiles ++ [files0 s].flatten) := by
+  have hall1 := allSome_map [s] (fun s => Cxx.schemaAll s [0]) files0 (fun t ht => by
+    have : t = s := by simpa using ht
+    subst this; exact schemaAll0 t gate)
+  unfold Cxx.created
+  simp only [hacc, Bool.not_true, Bool.false_eq_true, if_false]
+  rw [hall1]
+  rfl
+
+/-- **File level, stated over what the two programs do** (`Scanner.runWith … true` = the scanner with the codeless-schema skip
+    of the tree, any short-name rule; `Cxx.passes` = the pass assignment of a file without interface clauses; the link from
+    `Cxx.passes` to the multpass model is `C17_passes_agree_with_pass_model`): for a file of well-formed schemas that exp2cxx
+    accepts, every file a WRITTEN CMakeLists.txt lists is created by exp2cxx, and every file exp2cxx creates is one of the
+    per-file files (SdaiAll.cc, schema.h, …: listed by every description), or is listed by the description the scanner writes
+    for its schema — a schema that has a type or an entity — or is the `.h` twin of that schema's listed unity source.  Nothing is
+    said about a schema without types and entities beyond: no description, no files. -/
+theorem C17_file_as_written (p : Bool) (f : SchemaFile) (wf : ∀ s ∈ f.schemas, s.wf) (acc : Cxx.accepts f = true)
+    (pf : Schema → List Nat) (hp : Cxx.passes f = some pf) :
+    ∃ l, Cxx.created f pf = some l ∧
+      (∀ d ∈ (Scanner.runWith p true f).1, ∀ x ∈ d.2.listed, x ∈ l) ∧
+      (∀ x ∈ l, x ∈ fixedFiles ∨ ∃ s ∈ f.schemas, (s.types ≠ [] ∨ s.entities ≠ []) ∧
+          (x ∈ (Scanner.cmake f.path s f.schemas.length p).listed ∨
+           x = Cxx.ccToH (Scanner.cmake f.path s f.schemas.length p).unityEntityImpl ∨
+           x = Cxx.ccToH (Scanner.cmake f.path s f.schemas.length p).unityTypeImpl)) := by
+  -- the pass assignment
+  have hpf : pf = fun s => if s.types.isEmpty && s.entities.isEmpty then [] else [0] := by
+    unfold Cxx.passes at hp
+    split at hp
+    · exact (Option.some.inj hp).symm
+    · cases hp
+  subst hpf
+  have fit : ∀ s ∈ f.schemas, s.name.length ≤ maxIdentLen := by
+    intro s hs
+    have := List.all_eq_true.mp acc s hs
+    simp only [Bool.and_eq_true, decide_eq_true_eq] at this
+    exact this.1
+  let filesOf : Schema → List String := fun s => if s.types.isEmpty && s.entities.isEmpty then [] else files0 s
+  have hall := allSome_map f.schemas
+    (fun s => Cxx.schemaAll s (if s.types.isEmpty && s.entities.isEmpty then [] else [0])) filesOf (by
+      intro s hs
+      by_cases hc : (s.types.isEmpty && s.entities.isEmpty) = true
+      · have hc' := hc
+        simp only [Bool.and_eq_true, List.isEmpty_iff] at hc'
+        simp only [filesOf, hc, if_true]
+        exact schemaAll_codeless s hc'.1 hc'.2
+      · simp only [filesOf, hc, if_false, Bool.false_eq_true]
+        exact schemaAll0 s (fit s hs))
+  have hcreated : Cxx.created f (fun s => if s.types.isEmpty && s.entities.isEmpty then [] else [0])
+      = some (fixedFiles ++ (f.schemas.map filesOf).flatten) := by
+    unfold Cxx.created
+    simp only [acc, Bool.not_true, Bool.false_eq_true, if_false]
+    rw [hall]
+  refine ⟨fixedFiles ++ (f.schemas.map filesOf).flatten, hcreated, ?_, ?_⟩
+  · -- everything a written description lists is created: through the one-schema file of that schema
+    intro d hd x hx
+    unfold Scanner.runWith at hd
+    rcases mem_final _ [] d hd with h | ⟨c, hc, e⟩
+    · cases h
+    · obtain ⟨s, hs, rfl⟩ := List.mem_map.mp hc
+      have hf := List.mem_filter.mp hs
+      have hcode : ¬ (s.types.isEmpty && s.entities.isEmpty) = true := by
+        intro hh
+        have h2 := hf.2
+        simp only [Bool.true_and, Bool.not_eq_true', Bool.and_eq_false_iff, List.isEmpty_eq_false_iff] at h2
+        simp only [Bool.and_eq_true, List.isEmpty_iff] at hh
+        rcases h2 with h2 | h2
+        · exact h2 hh.2
+        · exact h2 hh.1
+      rw [e] at hx
+      rw [(cmake_lists_indep f.path s f.schemas.length p).1] at hx
+      obtain ⟨l1, hl1, h1, _⟩ := C17_file { path := f.path, schemas := [s] } (fun t ht => by
+          have : t = s := by simpa using ht
+          subst this; exact wf t hf.1) (by
+          simp only [Cxx.accepts, List.all_cons, List.all_nil, Bool.and_true]
+          exact List.all_eq_true.mp acc s hf.1) (by simp)
+      have hl1' : l1 = fixedFiles ++ [files0 s].flatten := by
+        have hacc1 : Cxx.accepts { path := f.path, schemas := [s] } = true := by
+          simp only [Cxx.accepts, List.all_cons, List.all_nil, Bool.and_true]
+          exact List.all_eq_true.mp acc s hf.1
+        rw [created_single f.path s (fit s hf.1) hacc1] at hl1
+        exact (Option.some.inj hl1).symm
+      have hx1 := h1 s (by simp) x hx
+      rw [hl1'] at hx1
+      simp only [List.mem_append, List.mem_flatten, List.mem_map, List.mem_singleton] at hx1 ⊢
+      rcases hx1 with hx1 | ⟨l, rfl, hx1⟩
+      · exact Or.inl hx1
+      · exact Or.inr ⟨filesOf s, ⟨s, hf.1, rfl⟩, by simp only [filesOf, hcode, if_false, Bool.false_eq_true]; exact hx1⟩
+  · intro x hx
+    simp only [List.mem_append, List.mem_flatten, List.mem_map] at hx
+    rcases hx with hx | ⟨l, ⟨s, hs, rfl⟩, hx⟩
+    · exact Or.inl hx
+    · right
+      by_cases hc : (s.types.isEmpty && s.entities.isEmpty) = true
+      · simp only [filesOf, hc, if_true] at hx
+        cases hx
+      · have hcode : s.types ≠ [] ∨ s.entities ≠ [] := by
+          simp only [Bool.and_eq_true, List.isEmpty_iff] at hc
+          by_cases ht : s.types = []
+          · exact Or.inr (fun he => hc ⟨ht, he⟩)
+          · exact Or.inl ht
+        simp only [filesOf, hc, if_false, Bool.false_eq_true] at hx
+        obtain ⟨l1, hl1, _, h2⟩ := C17_file { path := f.path, schemas := [s] } (fun t ht => by
+            have : t = s := by simpa using ht
+            subst this; exact wf t hs) (by
+            simp only [Cxx.accepts, List.all_cons, List.all_nil, Bool.and_true]
+            exact List.all_eq_true.mp acc s hs) (by simp)
+        have hl1' : l1 = fixedFiles ++ [files0 s].flatten := by
+          have hacc1 : Cxx.accepts { path := f.path, schemas := [s] } = true := by
+            simp only [Cxx.accepts, List.all_cons, List.all_nil, Bool.and_true]
+            exact List.all_eq_true.mp acc s hs
+          rw [created_single f.path s (fit s hs) hacc1] at hl1
+          exact (Option.some.inj hl1).symm
+        have hx1 : x ∈ l1 := by rw [hl1']; simp [hx]
+        obtain ⟨t, ht, hres⟩ := h2 x hx1
+        have : t = s := by simpa using ht
+        subst this
+        refine ⟨t, hs, hcode, ?_⟩
+        rw [(cmake_lists_indep f.path t f.schemas.length p).1, (cmake_lists_indep f.path t f.schemas.length p).2.1,
+            (cmake_lists_indep f.path t f.schemas.length p).2.2.1]
+        exact hres
 
 /-- … while every schema that has a type or an entity and no interface clause is printed exactly once, suffix 0. -/
 theorem C17_passes_nonempty (f : SchemaFile) (pf : Schema → List Nat) (h : Cxx.passes f = some pf) (s : Schema)
